@@ -69,22 +69,30 @@ class ColumnQuery(Query):
             return NullMatcher()
 
         creader = reader.column_reader(fieldname)
-        return ColumnMatcher(creader, comp)
+        return ColumnMatcher(creader, comp, missing=reader.is_deleted)
 
 
 class ColumnMatcher(ConstantScoreMatcher):
-    def __init__(self, creader, condition):
+    def __init__(self, creader, condition, missing=None):
+        """
+        :param missing: an optional function taking a document number and
+            returning True if that document is deleted.
+        """
+
         ConstantScoreMatcher.__init__(self)
         self.creader = creader
         self.condition = condition
+        self.missing = missing or (lambda docnum: False)
         self._i = 0
         self._find_next()
 
     def _find_next(self):
         condition = self.condition
         creader = self.creader
+        missing = self.missing
 
-        while self._i < len(creader) and not condition(creader[self._i]):
+        while self._i < len(creader) and (missing(self._i) or
+                                          not condition(creader[self._i])):
             self._i += 1
 
     def is_active(self):
@@ -105,8 +113,9 @@ class ColumnMatcher(ConstantScoreMatcher):
 
     def all_ids(self):
         condition = self.condition
+        missing = self.missing
         for docnum, v in enumerate(self.creader):
-            if condition(v):
+            if condition(v) and not missing(docnum):
                 yield docnum
 
     def supports(self, astype):
